@@ -647,6 +647,12 @@ func (s *sim) forward(bc *bconn, r int, target string, burst int, salt int) erro
 			}
 			m.addrAttr, m.hasAddr = "<"+a+">", true
 		default: // noaddr
+			if burst > 1 {
+				// a long unusable address: the result ad echoes it, so the listener's writes to
+				// the broker are long and the members' handlers write at about the same time
+				m.addrAttr, m.hasAddr = fmt.Sprintf("<no usable address %d.%d %s>", r, k, strings.Repeat("x", 12000+(salt+7*k)%20000)), true
+				break
+			}
 			switch (salt + k) % 3 {
 			case 0:
 				m.hasAddr = false
